@@ -5,12 +5,14 @@ RULE = ("N and 2N sequential or overlapping logical connections (application or 
         "a garbage frame and the process's CPU time over an idle second is measured; distinct_nontrivial = distinct (carrier, N, mode)")
 EXPLANATION_DNS = (" DNS tunnel connection (Queue/Close.v, shared with C17): in every reachable state a closed end has no reader parked on it - "
                    "whichever operation closed it released the reader in the same step; the shapes without in.Close() in closeConnection, in the "
-                   "sweep and in the client's Close are refuted for every continuation. Run against the real objects (c17q, c17p).")
+                   "sweep and in the client's Close are refuted for every continuation. The same for a writer parked in Write (waiting for the "
+                   "acknowledgement of what is queued): released by the Close of the out-queue at the same three places; the code before that "
+                   "repair is refuted for every continuation. Run against the real objects (c17q, c17p).")
 EXPLANATION = ("Props/C14.v: every PipeData execution ends with all three goroutines returned when the result channels have room for one value "
                "(capacities read from the source; the unbuffered variant is refuted by witness), and the accept loop exits on a dead session "
                "unless errors are answered with continue (read from the source). The scenarios measure growth per connection and idle CPU.") + EXPLANATION_DNS
 TRUSTED = ["runtime.NumGoroutine / getrusage / /proc/self/fd as measurements", "kernel socket states (TIME_WAIT) are not observed",
-           "DNS close model (Queue/Close.v): one reader per end, operations atomic; a Write parked in the out-queue is not modelled"]
+           "DNS close model (Queue/Close.v): one reader and one writer per end, operations atomic; acknowledgements are events of the environment"]
 RUN_TIMEOUT = 3000
 
 from . import c17 as _c17
@@ -53,7 +55,11 @@ def cases(tier, rng):
     # the DNS tunnel connection's close protocol on the real objects, compared token for token with the model: a reader parked on either end
     # when the end is closed in every way (application, peer's request, expiry, the poll goroutine told BADCONN / giving up)
     for ops in (["sr 8", "sc"], ["sr 8", "sq"], ["sr 8", "sx"], ["cr 8", "cc"], ["sr 0", "sc", "sr 0"], ["cr 0", "cc", "cr 0"],
-                ["sr 8", "sx", "sc", "sr 1"], ["sr 3", "sa #0102", "sr 3", "sq", "sr 3"], ["cr 3", "ca #0102", "cr 3", "cc", "cr 3"]):
+                ["sr 8", "sx", "sc", "sr 1"], ["sr 3", "sa #0102", "sr 3", "sq", "sr 3"], ["cr 3", "ca #0102", "cr 3", "cc", "cr 3"],
+                # a writer parked in Write (waiting for the acknowledgement of its chunk, or behind a chunk queued earlier) when the end is closed
+                ["sw #68656c6c6f", "sc"], ["sw #68656c6c6f", "sq"], ["sw #68656c6c6f", "sx"], ["sr 4", "sw #68656c6c6f", "sc", "sw #01"],
+                ["sz #01", "sw #0203", "sc"], ["sz #01", "sw #0203", "sx", "sw #04"], ["sw #0102", "sk", "sw #03", "sq", "sk"],
+                ["cv #01 0", "cv #0203 1", "cc"], ["cv #01 0", "cv #0203 0", "ck", "cc"], ["cr 4", "cv #01 0", "cv #02 1", "cc", "cv #03 1"]):
         c = _c17.q_case(ops, "fixed")
         c["tags"]["mode"] = "dns-close"
         cs.append(c)
@@ -132,6 +138,10 @@ def oracle(case, impl):
     return out
 
 
+def shrink(case):
+    return _c17.shrink(case)
+
+
 def agree(case, impl, model):
     if case["line"].startswith("c17q ") or case["line"].startswith("c17p "):
         return _c17.agree(case, impl, model)
@@ -153,8 +163,8 @@ META = {
                   "capacities read from the source) and of the stream accept loop: all goroutines of a finished connection return, and a dead "
                   "session ends the loop; the defective variants (unbuffered channels, continue on error) are refuted by witnesses. Goroutine, "
                   "descriptor and CPU footprints are measured over N and 2N connections and after abrupt session ends. DNS tunnel connection: a "
-                  "model of the close protocol (shared with C17) proves that a reader parked in Read is released by whatever closes its end, for "
-                  "every operation sequence; it is run token for token against the real objects.",
+                  "model of the close protocol (shared with C17) proves that a reader parked in Read and a writer parked in Write are released by "
+                  "whatever closes their end, for every operation sequence; it is run token for token against the real objects.",
     "level_note": "Measurements (goroutine counts, rusage) stand for 'footprint'; kernel socket states are not observed.",
     "technique": "Coq proofs by finite-state exploration of LTS models + footprint measurements at quiescent points",
 }
